@@ -86,25 +86,66 @@ structure SpecBelow (s : LS) (bs br bl : Nat) : Prop where
   list_lt : ∀ a ∈ s.assets, ∀ r ∈ a.attackSteps, ∀ rr, (s.step r).reaches = some rr →
     (s.reach rr).stepExpressions < bl
 
-/-- the objects of the specification (`< bs`, `< br`, `< bl`) are the same in `s'` as in `s`, the two top-level
-lists are the same, and no store shrank: the *frame* of a call -/
-structure Frame (s s' : LS) (bs br bl : Nat) : Prop where
-  assets : s'.assets = s.assets
-  associations : s'.associations = s.associations
-  step_eq : ∀ r < bs, s'.stepD[r]? = s.stepD[r]?
-  reach_eq : ∀ r < br, s'.reachD[r]? = s.reachD[r]?
-  list_eq : ∀ l < bl, s'.exprL[l]? = s.exprL[l]?
-  step_len : s.stepD.length ≤ s'.stepD.length
-  reach_len : s.reachD.length ≤ s'.reachD.length
-  list_len : s.exprL.length ≤ s'.exprL.length
+/-- `SpecBelow` as a computation -/
+def specBelowB (s : LS) (bs br bl : Nat) : Bool :=
+  decide (bs ≤ s.stepD.length) && decide (br ≤ s.reachD.length) && decide (bl ≤ s.exprL.length) &&
+  s.assets.all (fun a => a.attackSteps.all (fun r => decide (r < bs) &&
+    match (s.step r).reaches with
+    | none => true
+    | some rr => decide (rr < br) && decide ((s.reach rr).stepExpressions < bl)))
 
-/-- the step-dictionary objects of an answer were all allocated at or after the marks (`bs`, `br`), are inside the
-stores, and no two entries share a step dictionary or a `reaches` dictionary -/
-structure AnswerFresh (s : LS) (bs br : Nat) (acc : List (String × SRef)) : Prop where
-  nodup : (acc.map (·.1)).Nodup
-  sfresh : ∀ e ∈ acc, bs ≤ e.2 ∧ e.2 < s.stepD.length
-  rfresh : ∀ e ∈ acc, ∀ rr, (s.step e.2).reaches = some rr → br ≤ rr ∧ rr < s.reachD.length
-  sinj : ∀ e ∈ acc, ∀ e' ∈ acc, e.2 = e'.2 → e = e'
-  rinj : ∀ e ∈ acc, ∀ e' ∈ acc, ∀ rr, (s.step e.2).reaches = some rr → (s.step e'.2).reaches = some rr → e = e'
+theorem specBelow_of_check {s : LS} {bs br bl : Nat} (h : specBelowB s bs br bl = true) : SpecBelow s bs br bl := by
+  unfold specBelowB at h
+  simp only [Bool.and_eq_true, decide_eq_true_eq, List.all_eq_true] at h
+  obtain ⟨⟨⟨h1, h2⟩, h3⟩, h4⟩ := h
+  refine ⟨h1, h2, h3, fun a ha r hr => (h4 a ha r hr).1, ?_, ?_⟩
+  · intro a ha r hr rr hrr
+    have := (h4 a ha r hr).2
+    rw [hrr] at this
+    simp only [Bool.and_eq_true, decide_eq_true_eq] at this
+    exact this.1
+  · intro a ha r hr rr hrr
+    have := (h4 a ha r hr).2
+    rw [hrr] at this
+    simp only [Bool.and_eq_true, decide_eq_true_eq] at this
+    exact this.2
+
+/-! ## loading a specification value into an empty heap (for examples: every `Lang` has a heap) -/
+
+def loadStepPy (s : LS) (d : StepDecl) : LS × SRef :=
+  let base : PyStepD :=
+    { name := d.name, type := d.type, tags := d.tags, ttc := d.ttc, ttcName := d.ttcName,
+      metaTxt := d.metaTxt, mitre := d.mitre, risk := d.risk, requires := d.requires.map (fun l => l.map exprOf) }
+  match d.reaches with
+  | none => s.allocStep base
+  | some r =>
+    let a := s.allocList (r.exprs.map exprOf)
+    let b := a.1.allocReach { overrides := r.overrides, stepExpressions := a.2 }
+    b.1.allocStep { base with reaches := some b.2 }
+
+def loadStepsPy : LS → List StepDecl → LS × List SRef
+  | s, [] => (s, [])
+  | s, d :: ds =>
+    let r := loadStepPy s d
+    let rest := loadStepsPy r.1 ds
+    (rest.1, r.2 :: rest.2)
+
+def loadAssetsPy : LS → List AssetDecl → LS
+  | s, [] => s
+  | s, a :: as =>
+    let r := loadStepsPy s a.steps
+    let d : PyAssetD :=
+      { name := a.name, superAsset := a.superAsset, isAbstract := a.isAbstract,
+        variables := a.variables.map (fun v => { name := v.1, stepExpression := exprOf v.2 }),
+        attackSteps := r.2, metaTxt := a.metaTxt, category := a.category }
+    loadAssetsPy { r.1 with assets := r.1.assets ++ [d] } as
+
+/-- the heap of a freshly loaded specification -/
+def loadPy (L : Lang) : LS :=
+  let assoc (d : AssocDecl) : PyAssocD :=
+    { name := d.name, leftAsset := d.leftAsset, leftField := d.leftField, leftMin := d.leftMin, leftMax := d.leftMax,
+      rightAsset := d.rightAsset, rightField := d.rightField, rightMin := d.rightMin, rightMax := d.rightMax,
+      metaTxt := d.metaTxt }
+  loadAssetsPy { associations := L.assocs.map assoc } L.assets
 
 end MalVerif.Py.LSpec
